@@ -322,9 +322,9 @@ class Parser:
             self.process_statement()
 
     def process_statement(self) -> None:
-        if not self.set_line and self.statement:
+        if self.statement and (self.new_statement or not self.set_line):
             self.parse_statement()
-        if self.new_statement:
+        if self.new_statement and not self.set_was_in_line:
             self.statement = self.line
         else:
             self.statement = None
